@@ -521,13 +521,13 @@ def r8(prog, run):
     for f in prog.fns.values():
         if f.entry is None or not f.file.endswith('QXmppOutgoingClient.cpp') or f.id == h.id:
             continue
-        if not any((f.cname(n) or '').endswith('XmppSocket::disconnectFromHost') or (f.cname(n) or '') == OC + '::disconnectFromHost' for _, n in f.calls()):
+        if f.is_lambda or not any(n['k'] == 'mem' and n.get('f') in inputs and classify_use(f, i)[0] == 'write' for i, n in enumerate(f.nodes)):
             continue
-        if not any(n['k'] == 'mem' and n.get('f') in inputs and classify_use(f, i)[0] == 'write' for i, n in enumerate(f.nodes)):
+        seqs = cfgx.effect_sequences(prog, f, event_of)          # same-file helpers (closeStream(...)) are inlined
+        if not any('sock' in q for q in seqs):
             continue
         nfn += 1
         run.instance(rid)
-        seqs = cfgx.effect_sequences(prog, f, event_of)
         bad = [q for q in seqs if 'sock' in q and any(e.startswith('w:') for e in q[q.index('sock') + 1:])]
         if bad:
             late = [e for e in bad[0][bad[0].index('sock') + 1:] if e.startswith('w:')][0]
